@@ -151,7 +151,7 @@ def run_history(rng, counters, digests, samples, violations, known, world_ops=No
                 phase = "frozen"
             elif op[0] == "unfreeze":
                 phase = "post"
-            if op[0] not in ("freeze", "unfreeze", "clone", "copy_expr_from") and not (phase == "frozen" and graph_changing(op, hg.shadow)):
+            if op[0] not in ("freeze", "unfreeze", "refreeze", "reunfreeze", "clone", "copy_expr_from") and not (phase == "frozen" and graph_changing(op, hg.shadow)):
                 hg.shadow.apply(op)
                 exp = hg.shadow.all_expected()
             else:
@@ -166,6 +166,12 @@ def run_history(rng, counters, digests, samples, violations, known, world_ops=No
                 phase = "post"
             elif phase == "post" and i > n_pre + n_frozen + n_post:
                 break
+            elif phase != "frozen" and rng.random() < 0.04:
+                # unfreezing a tree that is not frozen changes nothing
+                op, exp, pre_shadow = ["reunfreeze"], None, hg.shadow
+            elif phase == "frozen" and rng.random() < 0.06:
+                # freezing a frozen tree changes nothing: ONE unfreeze_tree() later releases it
+                op, exp, pre_shadow = ["refreeze"], None, hg.shadow
             elif phase == "frozen":
                 x = rng.random()
                 if x < 0.08:
@@ -187,8 +193,15 @@ def run_history(rng, counters, digests, samples, violations, known, world_ops=No
             ls.runner.mgr.freeze_tree()
             snap = observe(ls.runner, hg.locs)
             continue
-        if op[0] == "unfreeze":
+        if op[0] in ("unfreeze", "reunfreeze"):
             ls.runner.mgr.unfreeze_tree()
+            continue
+        if op[0] == "refreeze":
+            ls.runner.mgr.freeze_tree()
+            why = diff_obs(snap, observe(ls.runner, hg.locs))
+            if why:
+                report("a second freeze_tree() changed the frozen manager: %s" % why)
+                return
             continue
         if phase != "frozen":
             r = both(op, exp)
